@@ -20,6 +20,8 @@ Count(s, x) == Cardinality({i \in 1..Len(s) : s[i] = x})
 BagEq(s, t) == Len(s) = Len(t) /\ \A x \in ToSet(s) \cup ToSet(t) : Count(s, x) = Count(t, x)
 V1(ps, q) == [ps |-> ps, q |-> q]
 
+CloneOps == {"clone_vec", "ce_probe"}
+LazyOps  == {"lazy"}
 CapOps   == {"reserve", "reserve_exact", "shrink_to_fit", "shrink_to", "recreate"}
 ElemOps  == {"push", "insert", "pop_begin", "remove_begin", "swap_remove_begin", "consume", "hmutate", "tpop",
              "tremove", "tswap_remove", "clear", "get", "mutate", "ext_drop"}
@@ -29,7 +31,8 @@ IterOps  == {"iter_begin", "iter_next", "iter_clone", "iter_end"}
 IsForget(a) == a.op = "range_forget" \/ (a.op \in {"consume", "next", "item_consume"} /\ a.sink.k = "forget")
 (* the property a plain behavioural mismatch of this action counts against *)
 PropOf(a) == IF a.op \in ElemOps THEN <<"C01">> ELSE IF a.op \in RangeOps THEN <<"C02">>
-             ELSE IF a.op \in CapOps THEN <<"C10">> ELSE <<"C14">>
+             ELSE IF a.op \in CapOps THEN <<"C10">> ELSE IF a.op \in CloneOps THEN <<"C08">>
+             ELSE IF a.op \in LazyOps THEN <<"C09">> ELSE <<"C14">>
 PropsOf(a, lat) ==
   PropOf(a) \o (IF IsForget(a) THEN <<"C07">> ELSE <<>>) \o (IF lat = "panic" THEN <<"C06">> ELSE <<>>)
   \o (IF Cfg.fixed THEN <<"C11">> ELSE <<>>) \o (IF ~Cfg.alloc THEN <<"C19">> ELSE <<>>)
@@ -75,6 +78,12 @@ ProtoViol(mem, canary) ==
   \cup (IF MemKinds(mem, {5}) # {} THEN {V1(<<"C18">>, "no_invalid_layout_reaches_allocator")} ELSE {})
   \cup (IF MemKinds(mem, {6}) # {} \/ ~canary THEN {V1(<<"C05", "C18">>, "guard_intact")} ELSE {})
   \cup (IF Cfg.backend \in {"stack", "stackn"} /\ MemKinds(mem, {1, 2, 3}) # {} THEN {V1(<<"C11", "C19">>, "no_heap_alloc")} ELSE {})
+
+(* a clone_empty_in probe builds a temporary vector on the requested backend: allocator traffic is expected exactly when *)
+(* that backend is the heap (or the source's own resizable backend)                                                    *)
+ProbeMem(a, mem) ==
+  IF a.op = "ce_probe" /\ (a.via \in {"heap", "fence"} \/ (a.via = "same" /\ ~Cfg.fixed))
+  THEN <<>> ELSE mem
 
 (* the explicit capacity constraint of the step for vector w, or the default derived from the lengths:              *)
 (* no growth needed => capacity, block and allocator untouched; growth needed => capacity' >= new length, >= old   *)
@@ -165,6 +174,19 @@ AdoptAfterPanic(stb, x, ev) ==
   IN [s3 EXCEPT !.leaked = @ \cup ((KnownIds(stb, ev) \ ToSet(ev.drops)) \ IdSet(AllElems(s3))) \cup LossMark]
 
 ---------------------------------------------------------------------------
+(* identities the contract needs for this step, in the contract's order.  Ordinary steps: the values the driver made.   *)
+(* Clone steps: the new identity of the clone callback whose source is the i-th source element (0 when there is none,   *)
+(* which then shows up as an element mismatch).  Lazy steps: the new identities in callback order.                        *)
+NewOf(cl, src) == LET c == {j \in 1..Len(cl) : cl[j][1] = src} IN IF c = {} THEN 0 ELSE cl[CHOOSE j \in c : TRUE][2]
+FreshFor(stb, ev) ==
+  LET a == ev.act IN
+  IF a.op = "clone_vec" THEN [i \in 1..Len(stb.v[a.v].el) |-> NewOf(ev.clones, stb.v[a.v].el[i][1])]
+  ELSE IF a.op = "lazy" THEN [j \in 1..a.n |-> IF j <= Len(ev.clones) THEN ev.clones[j][2] ELSE 0]
+  ELSE ev.born
+
+(* notes by which the driver reports that something the library REPORTED about itself is false *)
+BadNotes == {"badtype", "bad_ce_type", "bad_ce_len", "bad_ce_value", "bad_parts", "bad_parts_clone", "shared_storage", "bad_spare"}
+
 IsFault(ev) == "fault" \in DOMAIN ev
 DropLive(stb, ev) ==
   ~Cfg.drop \/ ~Cfg.ids \/
@@ -195,7 +217,7 @@ TdViol(s2, ev, extra) ==
 (* C06: the k-th invocation of user code inside the action panicked *)
 JudgeFault(stb, ev) ==
   LET a == ev.act
-      x == Apply(stb, a, ev.born)
+      x == Apply(stb, a, FreshFor(stb, ev))
       post == ev.post
       P == <<"C06">>
       hkOk == \A w \in Vecs : post[w].hk = x.st.v[w].h.k
@@ -215,9 +237,11 @@ Judge(stb, ev) ==
   LET a == ev.act IN
   IF ~Applicable(stb, a)
   THEN [st |-> stb, bad |-> TRUE, viol |-> {V1(<<"T00">>, "not_applicable")}]
+  ELSE IF ev.res = "driver_error"
+  THEN [st |-> stb, bad |-> TRUE, viol |-> {V1(<<"T00">>, "driver_error")}]
   ELSE IF IsFault(ev) THEN JudgeFault(stb, ev)
   ELSE
-  LET x    == Apply(stb, a, ev.born)
+  LET x    == Apply(stb, a, FreshFor(stb, ev))
       post == ev.post
       P    == PropsOf(a, x.lat) \o (IF "dyn" \in DOMAIN ev THEN <<"C06">> ELSE <<>>)
       wf   == ObsWF(stb, post)
@@ -226,10 +250,15 @@ Judge(stb, ev) ==
                 [] x.lat = "panic"  -> PanicOk(stb, a, ev) /\ (\A w \in Vecs : post[w].hk = x.st.v[w].h.k)
       resOk  == ev.res = x.res
       retOk  == x.lat # "exact" \/ ev.res # "ok" \/ ev.ret = x.ret
-      dropOk == ~Cfg.drop \/ x.lat = "panic" \/ BagEq(ev.drops, x.drops)
+      (* a clone_empty probe destroys exactly what it created (fresh values and their clones) *)
+      xdrops == IF a.op = "ce_probe" THEN ev.born \o [j \in 1..Len(ev.clones) |-> ev.clones[j][2]] ELSE x.drops
+      dropOk == ~Cfg.drop \/ x.lat = "panic" \/ BagEq(ev.drops, xdrops)
       dropLive == DropLive(stb, ev)
+      cloneOk == ~Cfg.ids \/ x.lat = "panic" \/ a.op = "ce_probe" \/ BagEq([j \in 1..Len(ev.clones) |-> ev.clones[j][1]], x.clones)
       hintOk == x.hint = -1 \/ (ev.hint[1] = x.hint /\ ev.hint[2] = x.hint /\ ev.hint[3] = x.hint)
-      typeOk == \A j \in 1..Len(ev.note) : ev.note[j] # "badtype"
+      typeOk == \A j \in 1..Len(ev.note) : ev.note[j] \notin BadNotes
+      ceOk == a.op # "ce_probe" \/ ~Cfg.ids \/
+              Len(ev.clones) = (IF Cfg.cloneable THEN (IF stb.v[a.v].el = <<>> THEN 1 ELSE 3) ELSE 0)
       viol0 ==
            (IF ~resOk  THEN {V1(P, "result")} ELSE {})
       \cup (IF ~stOk   THEN {V1(P, IF x.lat = "exact" THEN "elems" ELSE IF x.lat = "forget" THEN "forget_post" ELSE "panic_post")} ELSE {})
@@ -239,8 +268,10 @@ Judge(stb, ev) ==
       \cup (IF ~retOk  THEN {V1(P \o (IF a.op \in {"get", "mutate", "hmutate", "iter_next"} THEN <<"C13">> ELSE <<>>), "returned")} ELSE {})
       \cup (IF ~dropOk THEN {V1(<<"C03">> \o P, "drops_match")} ELSE {})
       \cup (IF ~dropLive THEN {V1(<<"C03">> \o P, "drop_once")} ELSE {})
+      \cup (IF ~cloneOk THEN {V1(P \o <<"C03">>, "clones_match")} ELSE {})
       \cup (IF ~hintOk THEN {V1(<<"C14">>, "size_hint_exact")} ELSE {})
-      \cup (IF ~typeOk THEN {V1(<<"C13", "C04">>, "reports_true")} ELSE {})
+      \cup (IF ~typeOk THEN {V1(<<"C13", "C04">> \o P, "reports_true")} ELSE {})
+      \cup (IF ~ceOk THEN {V1(P, "empty_twin_clones")} ELSE {})
       diverged == ~resOk \/ ~stOk \/ ~wf
       (* next model state *)
       gone == IdSet(AllElems(stb)) \cup ToSet(ev.born)
@@ -248,7 +279,8 @@ Judge(stb, ev) ==
             ELSE IF x.lat = "exact" THEN AdoptCaps(x.st, post)
             ELSE IF x.lat = "panic" THEN AdoptAfterPanic(stb, x, ev)
             ELSE AdoptAll([x.st EXCEPT !.leaked = stb.leaked], post, gone \ ToSet(ev.drops))
-      capv == (IF diverged THEN {} ELSE CapViol(stb, x, ev)) \cup ProtoViol(ev.mem, post.canary)
+      capv == (IF diverged THEN {} ELSE CapViol(stb, x, [ev EXCEPT !.mem = ProbeMem(a, @)])) \cup ProtoViol(ProbeMem(a, ev.mem), post.canary)
+              \cup ProtoViol([j \in 1..Len(ev.mem) |-> IF ev.mem[j][1] \in {1, 2, 3} THEN <<0, 0, 0, 0, 0, 0>> ELSE ev.mem[j]], post.canary)
       tdv == IF diverged THEN {} ELSE TdViol(s2, ev, (IF IsForget(a) THEN <<"C07">> ELSE <<>>) \o (IF "dyn" \in DOMAIN ev THEN <<"C06">> ELSE <<>>))
   IN [st |-> s2, bad |-> diverged, viol |-> viol0 \cup capv \cup tdv \cup TdMemViol(ev)]
 
